@@ -229,3 +229,24 @@ reg("C11", "c11", [("expressions", "plain", 1)], "exploration",
                "compared with a reference evaluator written from modeling.rst.",
     level_note="Trusts vlib/ref_model.py (reference evaluator, 150 lines) and numpy.",
     design_ref="4/C11")
+
+reg("C12", "c12", [("problems", "plain", 1)], "exploration",
+    rule="Hypothesis draws 1-3 variables (lengths 1-3), a convex or affine objective tree of length 1 and 0-3 constraints "
+         "(convex tree <= rhs, concave tree >= rhs, affine tree == rhs, a constraint without variables; vector or scalar "
+         "right-hand sides) from the C11 expression grammar (nested max/min/abs, sum of max, indexing, matrix coefficients, "
+         "dense/sparse), with right-hand sides shifted so that a drawn point x0 is strictly feasible; variants: boxed "
+         "(optimum exists), contradictory pair added (infeasible), only upper bounds with objective sum(x) (unbounded); "
+         "format dense/sparse, solver default/glpk. Non-trivial = optimal with >= 2 variables and a non-trivial objective "
+         "tree, or an infeasible/unbounded instance; distinct = SHA-1 of case JSON.",
+    assumptions=["the reference LP is formed by vlib/ref_lp.py (epigraph form written independently of modeling.py) and "
+                 "solved by scipy HiGHS", "status 'unknown' from the solver is inconclusive (counted)",
+                 "dual validity: the Lagrangian with the returned multipliers, minimised over a unit box around the "
+                 "returned solution, must equal the optimal value within 1e-5 relative (robust form of stationarity + "
+                 "complementary slackness)"],
+    technique="property-based differential testing against an independently formed LP (HiGHS) + reference evaluation of the original constraints + Lagrangian dual check",
+    level_text="~8e3 (quick) / 1.5e5 (thorough) generated PWL problems: status must match the independent LP, the returned "
+               "values must satisfy every original constraint (reference evaluator), objective.value() must equal the "
+               "independent optimum, multipliers must have the right length and sign and form a dual solution; "
+               "infeasible/unbounded variants must report the documented status with values/multipliers None.",
+    level_note="Trusts vlib/ref_model.py, vlib/ref_lp.py and scipy HiGHS.",
+    design_ref="4/C12")
